@@ -5,7 +5,7 @@ over discriminants), catch-all detection, mirror consistency, Eq=>Hash (float bi
 lossy int->float on the comparison path, twin agreement owned/borrowed.
 """
 from ..core import callee_of, callee_names, is_call_to, unwrap
-from ..pairs import walk, rank_table, fingerprint, ORD_NAME
+from ..pairs import op_bag, walk, rank_table, fingerprint, ORD_NAME
 from ..families import check_casts, bodies_of_fn
 from ..wire import _sccs
 
@@ -298,8 +298,20 @@ def run(ctx):
         fb = [fingerprint(x, rename=[('erltf::borrowed::', 'X::')]) for x in sorted(bodies_of_fn(P, 'erltf::borrowed::' + h), key=lambda x: x.path)]
         if fo == fb:
             ctx.ok('C11.5-twin-helpers', h, 'identical MIR modulo module path', ctx.where(Hb))
+            continue
+        # differently shaped code is fine as long as both copies perform the same operations
+        from collections import Counter
+        bo, bb_ = Counter(), Counter()
+        for x in bodies_of_fn(P, 'erltf::term::' + h):
+            bo += op_bag(x, rename=[('erltf::term::', 'X::')])
+        for x in bodies_of_fn(P, 'erltf::borrowed::' + h):
+            bb_ += op_bag(x, rename=[('erltf::borrowed::', 'X::')])
+        if bo == bb_:
+            ctx.ok('C11.5-twin-helpers', h, 'differently laid out, same multiset of operations (callees, operators, constants, casts)', ctx.where(Hb))
         else:
-            ctx.bad('C11.5-twin-helpers', h, 'the copy in borrowed.rs differs from the one in term.rs', ctx.where(Hb), key='TWIN:helper:%s' % h)
+            diff = sorted(str(k) for k in ((bo - bb_) + (bb_ - bo)))[:4]
+            ctx.bad('C11.5-twin-helpers', h, 'the copy in borrowed.rs performs different operations from the one in term.rs (%s): the two term types order some pair of numbers differently, '
+                    'or one of the copies is wrong' % '; '.join(diff), ctx.where(Hb), key='TWIN:helper:%s' % h)
 
 
 def _show(r):
